@@ -498,6 +498,11 @@ class C18(Prop):
             merged = completions[0].metrics(merge=lambda cur, new: new)
             args_tr = [m for m in merged if isinstance(m, ArgumentsTrace)]
             res_tr = [m for m in merged if isinstance(m, ResultTrace)]
+            if not __debug__:
+                # the statement says "traced (in debug mode)": with assertions stripped (python -O) tracing is switched off
+                if args_tr or res_tr:
+                    sim.fail_post("traced-metrics", f"traced outside debug mode recorded {merged!r}")
+                return
             if len(args_tr) != 1 or len(res_tr) != 1:
                 sim.fail_post("traced-metrics", f"traced: merged metrics hold {merged!r}")
                 return
